@@ -141,7 +141,12 @@ func DischargeAll(obls []*Obligation, covers []*Cover, o DischargeOpts) (res []*
 	var jobs []job
 	for _, ob := range obls {
 		r := &Result{Obl: ob}
-		text := ob.Script.Render(ob.Pos, ob.Goal, true, nil)
+		var text string
+		if ob.Raw != "" {
+			text = ob.Raw
+		} else {
+			text = ob.Script.Render(ob.Pos, ob.Goal, true, nil)
+		}
 		r.File = filepath.Join(o.OutDir, sanitizeFile(ob.Name)+".smt2")
 		r.Size = len(text)
 		res = append(res, r)
